@@ -1056,7 +1056,8 @@ fn spec_for<V: Val>(property: &str, thorough: bool, cfg: Config, mp: &MemPlan) -
         "C01" => !(has_mem && has_ttl) && cfg.fw.is_none(),
         "C04" => lim.is_some() && cfg.fw.is_none(),
         "C05" => has_mem && cfg.fw.is_none() && (!has_ttl || thorough && cfg.ttl == Some(2)),
-        "C06" => has_ttl && !has_mem && cfg.fw.is_none(),
+        // (the memory-aware store paths are separate code: two policies with a budget as well)
+        "C06" => has_ttl && cfg.fw.is_none() && (!has_mem || matches!(cfg.policy, Pol::Fifo | Pol::Lru)),
         "C07" => matches!(cfg.policy, Pol::Fifo | Pol::Lru) && (lim.is_some() || has_mem) && !has_ttl,
         "C08" => hitc && (lim.is_some() || has_mem) && (cfg.ttl.is_none() || cfg.ttl == Some(2)) && (cfg.fw.is_none() || cfg.policy == Pol::Tlru),
         "C15" => !has_mem && cfg.fw.is_none() && lim.map_or(true, |l| l <= 2),
